@@ -34,21 +34,29 @@ fn set_host_header<B>(request: &mut http::Request<B>) {
         return;
     }
 
-    let uri = request.uri().clone();
+    if request.headers().contains_key(http::header::HOST) {
+        return;
+    }
 
-    request
+    let uri = request.uri().clone();
+    let hostname = uri.host().expect("authority implies host");
+    let value = if let Some(port) = get_non_default_port(&uri) {
+        let s = format!("{}:{}", hostname, port);
+        HeaderValue::from_str(&s)
+    } else {
+        HeaderValue::from_str(hostname)
+    }
+    .expect("uri host is valid header value");
+
+    // A header map which is already full cannot take another header: the
+    // request then goes out as the caller built it, instead of panicking.
+    if request
         .headers_mut()
-        .entry(http::header::HOST)
-        .or_insert_with(|| {
-            let hostname = uri.host().expect("authority implies host");
-            if let Some(port) = get_non_default_port(&uri) {
-                let s = format!("{}:{}", hostname, port);
-                HeaderValue::from_str(&s)
-            } else {
-                HeaderValue::from_str(hostname)
-            }
-            .expect("uri host is valid header value")
-        });
+        .try_insert(http::header::HOST, value)
+        .is_err()
+    {
+        tracing::debug!(uri=%request.uri(), "request header map is full, host header not set");
+    }
 }
 
 /// Middleware which sets the Host header on requests.
